@@ -36,7 +36,10 @@ func VerifC01Step() {
 	c := vClient(withRange)
 	// a secondary index on the attribute w: it changes nothing the map semantics says, and it gives UpdateItem a
 	// second way of being refused after its expression has been applied (an ill-typed index key)
-	nd.Assert(AddIndex(vCtx, c, vTbl, vIdx, "w", "") == nil, "C01-setup-addindex")
+	withIndex := nd.Param("index", 1) == 1
+	if withIndex {
+		nd.Assert(AddIndex(vCtx, c, vTbl, vIdx, "w", "") == nil, "C01-setup-addindex")
+	}
 	m := &vModel{withRange: withRange}
 	var universe []vKey
 	for i := 0; i < n; i++ {
@@ -117,7 +120,7 @@ func VerifC01Step() {
 			expr = "SET v = :x REMOVE s"
 		}
 		vals := vItem{":x": vS(x)}
-		if nd.Choice("op.refused-for-index-key", 2) == 1 {
+		if withIndex && nd.Choice("op.refused-for-index-key", 2) == 1 {
 			expr, vals = "SET v = :x, w = :n", vItem{":x": vS(x), ":n": vN("1")}
 		}
 		_, err := c.UpdateItem(vCtx, &dynamodb.UpdateItemInput{TableName: aws.String(vTbl), Key: k.item(withRange),
